@@ -7,6 +7,8 @@ Definition returns_of (fn : string) : list string := match lookup fn return_cens
 Definition gos_of (fn : string) : list (string * list string) := match lookup fn go_guards with Some l => l | None => [] end.
 Definition mem_str (s : string) (l : list string) : bool := existsb (String.eqb s) l.
 Definition has_call (fn callee : string) : bool := existsb (is_call callee) (calls_of fn).
+Definition count_calls (fn callee : string) : nat := length (filter (is_call callee) (calls_of fn)).
+Definition conds_of_all (fn : string) : list string := conds_of fn.
 
 Definition ccfg_now : ccfg :=
   mkCcfg
@@ -24,7 +26,13 @@ Definition ccfg_now : ccfg :=
     (match returns_of "Connection.checkForRetry" with [r] => String.eqb r "err == io.EOF" | _ => false end)
     (match returns_of "Connection.isConnectedLocked" with [r] => String.eqb r "c.transport.IsConnected() && c.client != nil" | _ => false end)
     (* the fire-now request is also honoured by the sequence itself and by the waiter after its critical section *)
-    (has_call "Connection.doReconnect" "c.connectDelayTimer.FireNow" && has_call "Connection.waitForConnection" "c.connectDelayTimer.FireNow"
+    (Nat.eqb (count_calls "Connection.doReconnect" "c.fireConnectDelayTimerIfRequested") 2
+     && Nat.eqb (count_calls "Connection.doReconnect" "c.connectDelayTimer.Wait") 2
+     && before "Connection.doReconnect" "c.connectDelayTimer.StartConstant" "c.fireConnectDelayTimerIfRequested"
+     && before "Connection.doReconnect" "c.fireConnectDelayTimerIfRequested" "c.connectDelayTimer.Wait"
+     && has_call "Connection.fireConnectDelayTimerIfRequested" "c.connectDelayTimer.FireNow"
+     && mem_str "requested" (conds_of_all "Connection.fireConnectDelayTimerIfRequested")
+     && has_call "Connection.waitForConnection" "c.connectDelayTimer.FireNow"
      && before "Connection.DoCommand" "c.connectDelayTimer.FireNow" "c.waitForConnection").
 
 Definition expected_ccfg : ccfg := mkCcfg true true true true true true true true.
